@@ -683,6 +683,40 @@ class TermEngine:
             if d in self.switch_term:
                 c, vm = self.switch_term[d]
                 out.append((c, v, vm, d))
+        # a Boolean assembled by short-circuit operators is a join of constants and one last test
+        # (`let flip = a || b || c`): knowing its value pins the alternative it came through, and with it the tests
+        # that dominate that alternative
+        extra, seen = [], {(repr(c), repr(v)) for c, v, _, _ in out}
+        depth = getattr(self, "_fa_depth", 0)
+        if depth < 3:
+            self._fa_depth = depth + 1
+            try:
+                for c, v, vm, d in list(out):
+                    if not (isinstance(c, tuple) and c and c[0] == "phi") or vm:
+                        continue
+                    want = 0 if v == "0" else 1
+                    cands = []
+                    for pb, alt in c[2]:
+                        if isinstance(alt, tuple) and alt and alt[0] == "const":
+                            if int(alt[2]) == want:
+                                cands.append((pb, alt))
+                        else:
+                            cands.append((pb, alt))
+                    if len(cands) != 1:
+                        continue
+                    pb, alt = cands[0]
+                    pbn = int(str(pb).replace("bb", "")) if not isinstance(pb, int) else pb
+                    if not (isinstance(alt, tuple) and alt and alt[0] == "const"):
+                        extra.append((alt, v, None, d))
+                    for f in self.facts_at(pbn):
+                        extra.append(f)
+            finally:
+                self._fa_depth = depth
+        for f in extra:
+            k = (repr(f[0]), repr(f[1]))
+            if k not in seen:
+                seen.add(k)
+                out.append(f)
         return out
 
 
